@@ -42,18 +42,19 @@ class DefaultClock(Clock):
 
     def __init__(self):
         self.timers = {}
+        self.running = {}
 
     def start(self, timer_name: str):
-        if timer_name in self.timers:
+        if timer_name in self.running:
             raise TimerError(f"timer {timer_name} already running.")
-        self.timers[timer_name] = time.perf_counter()
+        self.running[timer_name] = time.perf_counter()
 
     def stop(self, timer_name: str):
-        if self.timers.get(timer_name) is None:
+        if timer_name not in self.running:
             raise TimerError(
                 f"timer {timer_name} is not running, use start() to start it."
             )
-        self.timers[timer_name] = time.perf_counter() - self.timers[timer_name]
+        self.timers[timer_name] = time.perf_counter() - self.running.pop(timer_name)
 
     def report(self) -> Dict[str, float]:
         return self.timers
